@@ -7,9 +7,12 @@ OVERLAY = os.path.join(VERIF, "overlay")
 
 # prepend lines (module-level name shadows the extern prelude), per file
 SHIM = '#[cfg(all(kani, feature = "std"))] use crate::verif::std_shim as std;\n'
+ONCE = '#[cfg(kani)] use uv_once_shim as once_cell;\n'
 PREPEND = {
     "src/state.rs": SHIM,
     "src/teardown.rs": SHIM,
+    "src/value_chain.rs": ONCE,
+    "src/lib.rs": ONCE,
 }
 
 def scratch_root():
@@ -57,11 +60,19 @@ def apply_overlay(repo, infile=True, prepend=False, skip=()):
                     f.write(open(os.path.join(dirpath, fn)).read())
                 applied.append(f"src/{rel} (+harness module)")
     if prepend:
+        # the once_cell stand-in crate (cfg(kani) only): a path dependency of the scratch copy
+        shim = os.path.join(os.path.dirname(repo), "uv_once_shim")
+        if not os.path.exists(shim):
+            shutil.copytree(os.path.join(OVERLAY, "shim_crate"), shim)
+        with open(os.path.join(repo, "Cargo.toml"), "a") as f:
+            f.write('\n[target.\'cfg(kani)\'.dependencies.uv_once_shim]\npath = "../uv_once_shim"\n')
+        applied.append("Cargo.toml (+cfg(kani) dependency uv_once_shim)")
         for rel, line in PREPEND.items():
+            # a `use` item may stand anywhere in a module: appended, so the overlay stays append-only
             p = os.path.join(repo, rel)
-            body = open(p).read()
-            open(p, "w").write(line + body)
-            applied.append(f"{rel} (+std shim import)")
+            with open(p, "a") as f:
+                f.write("\n" + line)
+            applied.append(f"{rel} (+shim import)")
     return applied
 
 def cleanup(path):
